@@ -9,6 +9,7 @@ import Req.Client.ProgressClock
 import Req.Client.SetBody
 import Req.Client.ResponseStages
 import Req.Client.BodyTable
+import Req.Client.Utf8
 /-! Driver lanes of C17. -/
 namespace Req.Driver.L.C17
 open Req.Proto
@@ -442,7 +443,18 @@ def laneDlStages : List String → String
     | _, _, _, _, _, _, _ => "bad-op"
   | _ => "bad-op"
 
+/-- `c17utf8 <code points>` → the UTF-8 encoding (`Multipart.utf8Enc`) and its quoted form. -/
+def laneUtf8 : List String → String
+  | [cps] =>
+    match decodeNatList cps with
+    | some l =>
+      let b := l.flatMap Req.Multipart.utf8Enc
+      encodeHex b ++ " " ++ encodeHex (Req.Multipart.quote b)
+    | none => "bad-op"
+  | _ => "bad-op"
+
 def lanes : List (String × (List String → String)) := [
+  ("c17utf8", laneUtf8),
   ("c17dlstages", laneDlStages),
   ("c17bodytable", laneBodyTable),
   ("c17dlhops", laneDlHops),
